@@ -409,6 +409,7 @@ def run(pid, tier, seed, t0, asbuilt=None):
 
     # extension stage: Connector.tla (the four connector stages behind the two gates of Pool.tla; C03 clauses: stranded call, lost wake-up)
     connector = __import__("x_connector").stage(pid, tier, seed, verdict) if pid == "C03" else None
+    upgrade = __import__("x_upgrade").stage(pid, tier, seed, verdict) if pid == "C02" else None   # Upgrade.tla: U1, an upgraded connection is never handed out again (real stack)
     code, unlisted = verdict.finish()
     if selftest_error is not None and not verdict.violations and not all_viol:
         raise selftest_error
@@ -440,7 +441,7 @@ def run(pid, tier, seed, t0, asbuilt=None):
         "monitor_on_model_behaviours": {"behaviours": min(len(behs), 400 if tier == "quick" else 4000), "clauses_flagged": model_flags},
         "clauses_falsified": sorted({v["tag"] for v in all_viol}),
         "repo_tree": vlib.repo_tree_id(),
-        "connector_model": connector,
+        "connector_model": connector, "upgrade_model": upgrade,
     }
     if rep["drifted"]:
         vlib.log(f"DRIFT: {rep['drifted']} of {rep['behaviours']} replayed behaviours differ from Pool.tla: {rep['drift_kinds']}")
@@ -456,6 +457,8 @@ def replay(pid, path):
     _rk = obj.get("replay", {}).get("kind") if isinstance(obj.get("replay"), dict) else None
     if _rk == "connector-trace":
         return __import__("x_connector").replay(pid, obj)
+    if _rk == "upgrade-scenario":
+        return __import__("x_upgrade").replay(pid, obj)
     if _rk == "body-ops":
         return __import__("x_body").replay(pid, obj)
     if _rk == "tcpcall-row":
